@@ -198,7 +198,11 @@ def conventional(cmd):
             return False
         # `required` changes which lines are accepted, not what an accepted line means (an overridden required flag is
         # excused by the implicit conflict and must still report the action's default; seeded change seed2/C07-3)
-        if (a["flags"] - {"required"}) or a["difs"] or a["requires_if"] or a["r_if"] or a["r_if_all"] or a.get("groups"):
+        if (a["flags"] - {"required", "reqeq"}) or a["difs"] or a["requires_if"] or a["r_if"] or a["r_if_all"] or a.get("groups"):
+            return False
+        # require_equals is inside the class for options that may be given bare (minimum 0): `--o` is then an occurrence without
+        # a value, `--o=v` one with a value, and the next word is never this option's value
+        if "reqeq" in a["flags"] and (not is_opt(a) or num_of(a) != (0, 1) or action_of(a) not in ("set", "append")):
             return False
         if action_of(a) not in ("set", "append", "count", "settrue", "setfalse"):
             return False
@@ -264,6 +268,9 @@ def scan(cmd, argv):
                 if eq:
                     if val == b"" or not close((a, [val])):
                         return None
+                elif "reqeq" in a["flags"]:
+                    if not close((a, [])):
+                        return None
                 else:
                     pending = (a, [])
             else:
@@ -283,6 +290,13 @@ def scan(cmd, argv):
                     return None
                 if takes_value(a):
                     v = rest[i + 1:]
+                    if "reqeq" in a["flags"]:
+                        if v == "":
+                            if not close((a, [])):
+                                return None
+                        elif not v.startswith("=") or v == "=" or not close((a, [v[1:].encode("utf-8")])):
+                            return None
+                        break
                     if v == "":
                         pending = (a, [])
                     else:
@@ -634,6 +648,10 @@ def gen_spec(rng, force_target_action=None):
             elif rr < 0.28:
                 a["num"] = (0, 1)
                 a["dmissing"] = [pick(rng, [b"dm", b"a,b"])]
+                if chance(rng, 0.4):
+                    # `--json[=<STYLE>]`: bare, it is stored when it is READ -- after an occurrence that was still collecting
+                    # (seeded change seed4/C07-1 stored it before the pending one, reversing the override order)
+                    a["flags"].add("reqeq")
             elif rr < 0.33:
                 a["num"] = (1, None)
             elif rr < 0.38:
@@ -683,6 +701,9 @@ def render_occ(rng, a, force=None):
     lo, hi = num_of(a)
     k = pick(rng, [lo, max(lo, 1), max(lo, 1), (hi if hi is not None else lo + 2)])
     vals = [pick(rng, VALS) for _ in range(k)]
+    if "reqeq" in a["flags"]:
+        name = b"--" + a["long"] if how == "long" else b"-" + a["short"].encode()
+        return [name + (b"=" + vals[0] if k >= 1 else b"")], None
     if k == 1 and chance(rng, 0.5):
         if how == "long":
             return [b"--" + a["long"] + b"=" + vals[0]], None
